@@ -84,13 +84,22 @@ func (xp xpathImpl) resolveOperator(oper *xpath.Operator, ident string, s *Selec
 	if err != nil {
 		return false, err
 	}
+	if a == nil {
+		// no value, no comparison holds
+		return false, nil
+	}
 	switch oper.Oper {
 	case "=":
 		return val.Equal(a, b), nil
 	case "!=":
 		return !val.Equal(a, b), nil
 	default:
-		c := a.(val.Comparable).Compare(b.(val.Comparable))
+		ac, aComparable := a.(val.Comparable)
+		bc, bComparable := b.(val.Comparable)
+		if !aComparable || !bComparable {
+			return false, fmt.Errorf("'%s' has no order to compare with %s", ident, oper.Oper)
+		}
+		c := ac.Compare(bc)
 		switch oper.Oper {
 		case "<":
 			return c < 0, nil
